@@ -168,7 +168,7 @@ Definition leave_here (c : client) (e : event) (rec_epoch : N) : client * rk :=
 Definition commit_here (c : client) (e : event) (rec_epoch : N) : client * rk :=
   let k := kc c in
   if negb (forallb (fun p => existsb (N.eqb p) (k_props k)) (e_refs e)) then fail_unprocessable c e rec_epoch else
-  if negb (e_auth e) then (record_failure c (e_id e) true (Some rec_epoch), RErr)
+  if negb (e_auth e) || (e_bad e =? 8) then (record_failure c (e_id e) true (Some rec_epoch), if negb (e_auth e) then RErr else RUnproc)
   else apply_commit c e (commit_of e).
 
 Definition here (c : client) (e : event) (rec_epoch : N) : client * rk :=
@@ -341,7 +341,7 @@ Lemma Inv_commit_here c e r : Inv c -> Inv (fst (commit_here c e r)).
 Proof.
   intros H. unfold commit_here.
   destruct (negb (forallb _ (e_refs e))); [exact H|].
-  destruct (negb (e_auth e)); [exact H|]. apply Inv_apply_commit. exact H.
+  destruct (negb (e_auth e) || (e_bad e =? 8)); [exact H|]. apply Inv_apply_commit. exact H.
 Qed.
 
 Lemma Inv_here c e r : Inv c -> Inv (fst (here c e r)).
@@ -446,7 +446,7 @@ Proof.
       * unfold leave_here. destruct (existsb (N.eqb (100000 + e_id e)) (k_seen (kc c))); [reflexivity|].
         destruct (is_admin c && _); reflexivity.
       * unfold commit_here. destruct (negb (forallb _ (e_refs e))); [reflexivity|].
-        destruct (negb (e_auth e)); [reflexivity|apply rb_apply_commit].
+        destruct (negb (e_auth e) || (e_bad e =? 8)); [destruct (negb (e_auth e)); reflexivity|apply rb_apply_commit].
 Qed.
 
 Lemma process_rb fuel : forall c e, rollbacks c <= rollbacks (fst (process fuel c e)).
@@ -494,7 +494,7 @@ Proof.
            exfalso. apply Hlv. repeat split; [exact K2|discriminate].
         -- discriminate.
       * revert Href. unfold commit_here. destruct (negb (forallb _ (e_refs e))); [reflexivity|].
-        destruct (negb (e_auth e)); [reflexivity|]. rewrite apply_commit_rk. discriminate.
+        destruct (negb (e_auth e) || (e_bad e =? 8)); [destruct (negb (e_auth e)); reflexivity|]. rewrite apply_commit_rk. discriminate.
 Qed.
 
 Lemma refusal_frame : forall c e,
@@ -680,7 +680,7 @@ Proof.
         [unfold leave_here; destruct (existsb _ _); [discriminate|]; destruct (is_admin (ens c) && _); [discriminate|];
          destruct (is_admin (ens c)); discriminate|]);
        unfold commit_here; (destruct (negb (forallb _ (e_refs e))); [discriminate|]);
-       (destruct (negb (e_auth e)); [discriminate|]); rewrite apply_commit_rk; discriminate.
+       (destruct (negb (e_auth e) || (e_bad e =? 8)); [destruct (negb (e_auth e)); discriminate|]); rewrite apply_commit_rk; discriminate.
   all: destruct (wrong_epoch (kc (ens c)) e); [|exact Hhere].
   all: destruct (is_commit_kind e && is_better (ens c) (e_epoch e) (e_ts e) (e_key e));
        [|unfold late; destruct (dget (e_id e) (dedup (ens c))) as [d|]; [destruct (d_state d =? PS_COMMIT)|]; discriminate].
@@ -721,7 +721,7 @@ Proof.
       * unfold leave_here. destruct (existsb (N.eqb (100000 + e_id e)) (k_seen (kc c))); [exact Hnd|].
         destruct (is_admin c && _); exact Hnd.
       * unfold commit_here. destruct (negb (forallb _ (e_refs e))); [exact Hnd|].
-        destruct (negb (e_auth e)); [exact Hnd|]. rewrite nodup_msgs_apply_commit. exact Hnd.
+        destruct (negb (e_auth e) || (e_bad e =? 8)); [exact Hnd|]. rewrite nodup_msgs_apply_commit. exact Hnd.
 Qed.
 
 Lemma no_second_copy_fuel fuel : forall c e, NoDup (map fst (msgs c)) -> NoDup (map fst (msgs (fst (process fuel c e)))).
@@ -1065,7 +1065,7 @@ Lemma settled_commit_here c e r :
 Proof.
   intros K3 Hw K1 Hq. unfold commit_here.
   destruct (negb (forallb _ (e_refs e))); [apply settled_rf|].
-  destruct (negb (e_auth e)); [apply settled_rf|].
+  destruct (negb (e_auth e) || (e_bad e =? 8)); [apply settled_rf|].
   apply settled_apply_commit; assumption.
 Qed.
 
@@ -1243,7 +1243,7 @@ Section Fork.
   (* an event that the engine applies as the next commit on the pre-fork state *)
   Definition applies (x : event) : Prop :=
     e_kind x = 0 /\ e_state x = k_cur k1 /\ e_epoch x = k_epoch k1 /\ e_removes x = [] /\ e_ts x <> 0 /\
-    ((e_author x <> me0 /\ e_auth x = true /\ e_refs x = []) \/ (e_author x = me0 /\ k_pending k1 = Some (commit_of x))).
+    ((e_author x <> me0 /\ (e_auth x = true /\ e_bad x <> 8) /\ e_refs x = []) \/ (e_author x = me0 /\ k_pending k1 = Some (commit_of x))).
 
   Definition fresh (d : list (N * drec)) (x : event) : Prop :=
     dget (e_id x) d = None \/
@@ -1285,7 +1285,8 @@ Section Fork.
     destruct Hau as [(Hne & Hauth & Hrefs)|(Heq & Hpend)].
     - destruct (N.eqb_spec (e_author x) me0) as [E|_]; [contradiction|].
       rewrite K0. change (0 =? 1) with false. change (0 =? 2) with false. cbv iota.
-      unfold commit_here. rewrite Hrefs, Hauth. reflexivity.
+      unfold commit_here. destruct Hauth as [Hauth Hbad]. rewrite Hrefs, Hauth.
+      destruct (N.eqb_spec (e_bad x) 8) as [E|_]; [contradiction|]. reflexivity.
     - rewrite Heq, N.eqb_refl. unfold own_here. rewrite K0. change (0 =? 0) with true. cbv iota.
       change (kc (ens b)) with (ensure_secret (kc b)). rewrite Hk, Hpend. reflexivity.
   Qed.
@@ -1524,7 +1525,7 @@ Qed.
 
 Lemma competitor_applies c x : competitor c x -> applies (ensure_secret (kc c)) (me c) x.
 Proof.
-  intros (K0 & Hst & Hep & Hau & Hauth & Hrm & Hrefs & Hts & _). unfold applies. rewrite es_cur, es_epoch.
+  intros (K0 & Hst & Hep & Hau & (Hauth & Hbad) & Hrm & Hrefs & Hts & _). unfold applies. rewrite es_cur, es_epoch.
   repeat split; try assumption. left. repeat split; assumption.
 Qed.
 
@@ -1573,7 +1574,7 @@ Proof.
   { intros x [<-|Hx].
     - unfold applies, k1. cbn [own' e_kind e_state e_epoch e_removes e_ts e_author with_pending k_cur k_epoch k_pending].
       rewrite es_cur, es_epoch. repeat split; try assumption. right. split; reflexivity.
-    - destruct (Hcomp x Hx) as (K0 & Hst & Hep & Hau & Hauth & Hrm & Hrefs & Htx & _).
+    - destruct (Hcomp x Hx) as (K0 & Hst & Hep & Hau & (Hauth & Hbad) & Hrm & Hrefs & Htx & _).
       unfold applies, k1. cbn [with_pending k_cur k_epoch k_pending]. rewrite es_cur, es_epoch.
       repeat split; try assumption. left. repeat split; assumption. }
   assert (Hinj' : forall x y, In x (own' :: K) -> In y (own' :: K) -> e_id x = e_id y -> x = y).
@@ -1728,7 +1729,7 @@ Proof.
       * unfold leave_here. destruct (existsb (N.eqb (100000 + e_id e)) (k_seen (kc c))); [exact H|].
         destruct (is_admin c && _); [exact H|]. cbn [fst]. destruct (is_admin c); exact H.
       * unfold commit_here. destruct (negb (forallb _ (e_refs e))); [exact H|].
-        destruct (negb (e_auth e)); [exact H|apply qwf_apply_commit; exact H].
+        destruct (negb (e_auth e) || (e_bad e =? 8)); [exact H|apply qwf_apply_commit; exact H].
 Qed.
 
 Lemma qwf_process fuel : forall c e, queue_wf c -> queue_wf (fst (process fuel c e)).
